@@ -18,19 +18,19 @@ T = {
          "Every legal move path of length <= 2-3 (thorough 3-4) from 13 starts chosen so that castling, promotions, under-promotions, en passant and non-pawn moves onto a just-skipped square all occur, each as one `position ... moves ...` command; every state within 1-2 plies of ~100 roots as a FEN with every counter pair of a 10x9 grid (up to halfmove 150, fullmove 5949) that a real game can reach; every ordered pair over a pool of commands on a fresh engine; every prefix of seeded long games. The engine's raw bitboards, side, rights and en-passant target must equal the model's.",
          "Trusts the rules model's FEN/UCI reading; malformed input is outside the property and never sent.", "3/C04"),
  "C08": (True, "model_checking", "complete small-material classes and root neighbourhoods classified by the rules model (mate-in-one set, moves allowing mate in one); every qualifying state searched on a fresh Searcher at depth 1..4 / 2..3",
-         "Every position of K+Q v k, K+R v k (quick: lone king in the a1-d1-d4 triangle; thorough: all), K+P v k with the pawn on the 6th/7th, thorough also K+R+R v k and K+Q v k+r, and every state within 1-2 plies of ~100 special roots is classified by the model; each state with a mate in one is searched at depth 1,2,3,4 and must answer with a mating move; each state with a mix of safe/unsafe moves is searched at depth 2,3 and must not answer with a move that allows mate in one.",
+         "Every position of K+Q v k, K+R v k (quick: lone king in the a1-d1-d4 triangle; thorough: all), K+P v k with the pawn on the 6th/7th, lone king v k+q+q (every move loses: the defensive half), thorough also K+R+R v k, K+Q v k+r and lone king v k+q+r, every state within 1-2 plies of ~100 special roots and of 23 tactical roots (the repository's mate puzzles and more, with colour mirrors) is classified by the model; each state with a mate in one is searched at depth 1,2,3,4 and must answer with a mating move; each state with a mix of safe/unsafe moves is searched at depth 2,3 and must not answer with a move that allows mate in one.",
          "Trusts the rules model for mate detection; bounded position space.", "3/C08"),
  "C09": (True, "model_checking", "every legal history over a shuffle alphabet up to length L through the real position handler, then the real depth-1 search with the repetition decision traced at ply 1 and compared with occurrence counts in the rules model; depth-1 value vs reference; ordered pairs of position commands",
          "From 4 starts (start position; K+R v k with a castling right; en-passant capture available; black to move with rights on both sides) every legal sequence over 10-11 reversible/irreversible moves up to length 7-8 (thorough 9-10) is sent as ucinewgame + position ... moves ...; the draw decision the real negamax takes for every root successor must equal 'occurred at least twice before in this game'; the depth-1 score and move must equal max(0 for third occurrences, -quiescence otherwise); command pairs check that an earlier position command's history does not count.",
          "Candidates on which the strict and the FIDE notion of 'same position' (en-passant target capturable or not) disagree are not judged.", "3/C09"),
  "C13": (True, "model_checking", "exhaustive enumeration of command histories (<= L units) on the real binary, each under K seeded Zobrist key sets and one unseeded run; outputs compared across runs and across the ucinewgame suffix join",
-         "All 6174 (thorough 111150) histories over 18 units {ucinewgame, bare go, 4 positions x go depth 1..4} are run on a fresh process per key set; the output with time/nps removed must be identical for all key sets, and for every history alpha.ucinewgame.beta the output of beta must equal that of beta alone on a fresh process.",
+         "All 6174 (thorough 111150) histories over 18 units {ucinewgame, bare go, 4 positions x go depth 1..4} are run on a fresh process per key set; the output with time/nps removed must be identical for all key sets, and for every history alpha.ucinewgame.beta the output of beta must equal that of beta alone on a fresh process. Four deep searches (10^5..10^6 table entries: start position depth 7, two middlegames, a rook ending depth 9; thorough one ply deeper) run as [X], [X,X], [X,ucinewgame,X] under 5 (8) seeded key sets + unseeded. A difference between seeded key sets is replayable; one that only the unseeded run shows is reported without a replay.",
          "Key sets and the HashMap RandomState are instantiated (2-4 seeds + unseeded), not enumerated.", "3/C13"),
  "C16": (True, "model_checking", "exhaustive enumeration of input streams (<= L lines over a 13-symbol protocol alphabet, with/without final newline) on the real binary (hooks off and on); stdout, exit status and termination vs a reference state machine",
          "Every line sequence up to length 3 over the full alphabet (both binaries, with and without a final newline) and up to length 4 over the 9-symbol core alphabet (thorough: 4 and 5) is fed to a fresh process whose stdin is then closed; the output must parse exactly as the reference prescribes (id lines + uciok per uci, readyok per isready, info* + one legal bestmove per go, nothing else, nothing after quit), exit status 0, exit within the horizon.",
          "Termination is decided with a 6 s horizon after end of input.", "3/C16"),
  "C05": (True, "model_checking", "memoised unpruned minimax over the explored state graph (subject's own move generator, subject's own full-window quiescence at the leaves) vs find_best_move on a fresh Searcher for every state of depth-limited neighbourhoods, depth 1..3; instrumented fixed-depth searches to depth 4..5",
-         "For every state of the listed neighbourhoods (start position to 2 plies, endings to 2-3 plies, middlegame roots) a fresh Searcher is searched to depth 1, 2, 3 and compared with the reference value V(s,k) computed without pruning, ordering or caching: exact equality inside the window, won/lost beyond it, and the returned move must attain the value. Depth 4..5 single fixed-depth searches are compared only when the TT-cutoff counter shows no deeper entry was reused.",
+         "For every state of the listed neighbourhoods (start position to 2 plies, 14 endings to 1-3 plies, middlegame roots, 23 tactical roots with colour mirrors and every state one ply from them) a fresh Searcher is searched to depth 1, 2, 3 and compared with the reference value V(s,k) computed without pruning, ordering or caching: exact equality inside the window, won/lost beyond it, and the returned move must attain the value. Depth 4..5 single fixed-depth searches are compared only when the TT-cutoff counter shows no deeper entry was reused.",
          "Leaf values are the subject's own quiescence values by the property's definition; states whose quiescence exceeds the node cap are excluded and counted.", "3/C05"),
  "C06": (True, "fault_enumeration", "crash-point enumeration under the node clock: deadline at every node 0..T of a search (and pairs of deadlines), then a completed search on the same Searcher vs the reference value; repetition-stack length before/after",
          "For 12 positions x depth 2,3 the deadline is placed at every node count of the uninterrupted search (T up to 6000 quick / 40000 thorough), on a fresh Searcher each time; the completed search that follows must report the reference minimax value and a move that attains it, and the game-history stack must have its original length. Small searches also get every pair of interruptions.",
@@ -42,10 +42,10 @@ T = {
          "The finite space that determines the tables is enumerated completely (every on-ray blocker subset, edges included, with four fillings of the remaining squares; all pairs for the segment/line tables) and compared with a ray walk / geometry. exhaustive=true.",
          "Off-ray occupancy is represented by four fillings rather than all 2^50 (the code masks occupancy with the ray mask before indexing; a change that drops the mask is caught by the 'full' and checkerboard fillings).", "3/C10"),
  "C11": (True, "model_checking", "explored position graph: path independence on every merge, counter independence and every single-component perturbation per state, injectivity on a complete class, for K seeded key sets + one unseeded",
-         "The hash stored when a state is first reached is compared with the hash of every later board that merges into it (other move orders, other roots with different move counters); every state is re-read from FENs with six counter pairs; ~800 single-component perturbations per perturbed state must all change the hash; distinct keys of class F1 must have distinct hashes.",
+         "The hash stored when a state is first reached is compared with the hash of every later board that merges into it (other move orders, other roots with different move counters); every state is re-read from FENs with six counter pairs; ~800 single-component perturbations per perturbed state must all change the hash; all consistent (side, castling rights, en-passant target) decorations of a placement must hash pairwise differently (two-component differences); distinct keys of class F1 must have distinct hashes. Key tables are built per worker thread, so the table type need not be shareable.",
          "Key sets are instantiated (3 quick / 8 thorough seeded + 1 unseeded), not enumerated.", "3/C11"),
  "C12": (True, "exploration", "complete grid of clock values x all orders of the token pairs x presence subsets x side to move through the real go parser with the search in dry-run",
-         "1.3 million go lines through the real handle_go_command/calculate_move_time; the budget recorded at the top of find_best_move must be identical for fixed (side, own time, own increment) across every opponent value, token order, presence subset and depth prefix, must not exceed the mover's time and must be strictly below it when time remains.",
+         "1.3 million grid go lines plus a dense sweep of every own clock value 0..12000 ms (thorough 0..200000) x 9 increments x 3 opponent clocks x 4 token orders through the real handle_go_command/calculate_move_time; the budget recorded at the top of find_best_move must be identical for fixed (side, own time, own increment) across every opponent value, token order, presence subset and depth prefix, must not exceed the mover's time and must be strictly below it when time remains.",
          "Values between grid points are assumed to behave like their neighbours (grid is dense around the 5 s reserve and at 0/1/2 ms).", "3/C12"),
  "C14": (True, "model_checking", "explored position graph + complete class F1: purity (dirty evaluator vs fresh), side-swap negation, colour-mirror invariance, bound; all call sequences of length 3 over 24 positions on one evaluator",
          "Every explored state is evaluated on a fresh evaluator, on evaluators that just evaluated very different positions, and on a long-lived per-thread evaluator; the side-swapped twin must score the exact negative and the mirrored twin the same; |score| <= 20000 including 18-queen roots; 13824 three-call sequences on one evaluator equal the fresh results.",
